@@ -266,7 +266,10 @@ fn variant_struct_name(goenv: &GlobalGoEnv, enum_name: &str, variant_name: &str)
             }
         }
     }
-    if count > 1 {
+    // A variant named like a type (`enum Expr { Lit(Lit), .. }`) would declare that name twice.
+    let names_a_type = goenv.enums().any(|(n, _)| n.0 == variant_name)
+        || goenv.structs().any(|(n, _)| n.0 == variant_name);
+    if count > 1 || names_a_type {
         format!("{}_{}", go_ident(enum_name), go_ident(variant_name))
     } else {
         go_ident(variant_name)
